@@ -273,15 +273,17 @@ class Block:
 
     def remap(self, map: Dict[str, str]):
         other = deepcopy(self)
-        other.M = self.M @ Bijection(map)
-        other.inputs = other.M @ self.inputs
-        other.outputs = other.M @ self.outputs
+        # self.M maps internal names to the current external names; the new map acts on the current external names
+        new = Bijection(map)
+        other.M = new @ self.M
+        other.inputs = new @ self.inputs
+        other.outputs = new @ self.outputs
         if hasattr(self, 'input_list'):
-            other.input_list = other.M @ self.input_list
+            other.input_list = new @ self.input_list
         if hasattr(self, 'output_list'):
-            other.output_list = other.M @ self.output_list
+            other.output_list = new @ self.output_list
         if hasattr(self, 'non_back_iter_outputs'):
-            other.non_back_iter_outputs = other.M @ self.non_back_iter_outputs
+            other.non_back_iter_outputs = new @ self.non_back_iter_outputs
         return other
 
     def rename(self, name: Optional[str] = None, suffix: Optional[str] = None):
